@@ -22,7 +22,7 @@ from props import _hlg_util as U
 PROP = "C25"
 READY = True
 DRIVER = "dm_hlg"
-LEAN_MODULES = ["DaskModel.Props.C25"]
+LEAN_MODULES = ["DaskModel.Props.C25", "DaskModel.Props.C25xUnify"]
 CASE_TIMEOUT_S = 60   # the first case of a run also pays the import of dask.array (slow on a loaded machine)
 LEVEL_TEXT = ("Lean 4 theorems over a chunk-metadata model of a pipeline language (leaves, broadcasting elementwise ops after "
               "unify_chunks, transpose, axis removal, keepdims reduction, new axis, concatenate, stack): `pipeline_meta_ok` — by "
@@ -41,7 +41,14 @@ LEVEL_TEXT = ("Lean 4 theorems over a chunk-metadata model of a pipeline languag
               "is diffed against the model (slices and tuples, NotImplementedError/IndexError outcomes included), the "
               "model's meaning of an index tuple is diffed against NumPy, and chains of 2-3 getitems (steps 1-3, explicit "
               "stops inside the selection, integer indices, new axes, one integer array) are computed optimised / "
-              "unoptimised / per block.")
+              "unoptimised / per block. Extension `unify_post` (Props/C25xUnify.lean): the postcondition of unify_chunks "
+              "that the pipeline model used to CHECK at run time is proved for the unify_chunks model itself — for any number "
+              "of arguments without a symbol repeated inside one array, zero-length dimensions and interior zero-length "
+              "chunks included, whose lengths along a symbol agree up to length-one dimensions: whenever unify_chunks "
+              "returns, along every symbol the common chunks are not (), every argument is rechunked to the common chunks or "
+              "keeps the single chunk (1,), and some argument carries the common chunks (`commonBlockdim_total`: "
+              "common_blockdim keeps the total in every branch, no positivity needed); hypotheses and conclusion are "
+              "evaluated on every generated real unify_chunks call (section `unifypost`).")
 LEVEL_NOTE = ("Trusted: Lean kernel + standard axioms; the metadata model tied by a function-level diff of lazy chunks; the "
               "shape behaviour of the per-block NumPy kernels (broadcasting, transpose, sum, expand_dims, concatenate) is "
               "assumed as stated in the model; dtype inference (compute_meta) is oracle-only.")
@@ -770,8 +777,145 @@ def gen_slicechain(rng):
     return {"shape": shape, "chunks": chunks, "chain": chain}
 
 
+# ------------------------------------------------------------------------------------------------
+# extension: the postcondition of unify_chunks (theorem `unify_post`, Props/C25xUnify.lean)
+# ------------------------------------------------------------------------------------------------
+
+def case_unifypost(ctx, inp):
+    """real `unify_chunks` vs the model, the hypotheses of `unify_post` (argOK, bcastOK) recomputed in Python vs the driver,
+    and the theorem's conclusion evaluated on the REAL result: along every symbol the common chunks are not `()`, every
+    rechunked argument has the common chunks or `(1,)`, and some argument carries the common chunks; for elementwise index
+    strings additionally the public operation (`x + y (+ z)`): lazy chunks = common chunks, every block as declared."""
+    import warnings
+    import numpy as np
+    import dask.array as da
+    from dask.array.core import unify_chunks
+    A = inp["args"]
+    arrs, call = [], []
+    for a in A:
+        shape = tuple(sum(c) for c in a["chunks"])
+        d = da.from_array(np.arange(int(np.prod(shape)), dtype="i8").reshape(shape), chunks=tuple(tuple(c) for c in a["chunks"]))
+        arrs.append(d)
+        call += [d, tuple(a["ind"])]
+    try:
+        with warnings.catch_warnings():
+            warnings.simplefilter("ignore")
+            chunkss, new = unify_chunks(*call)
+        real = {int(k): [int(c) for c in v] for k, v in chunkss.items()}
+        newc = [[[int(c) for c in ax] for ax in arr.chunks] for arr in new]
+    except ValueError:
+        real = None
+    # hypotheses, recomputed independently
+    argok = all(len(a["ind"]) == len(a["chunks"]) and all(len(c) > 0 for c in a["chunks"])
+                and len(set(a["ind"])) == len(a["ind"]) for a in A)
+    lens = {}
+    for a in A:
+        for s_, c in zip(a["ind"], a["chunks"]):
+            lens.setdefault(s_, set()).add(sum(c))
+    bok = all(len(v - {1}) <= 1 for v in lens.values())
+    m = ctx.lean(Sym("unifypost"), [[a["ind"], a["chunks"]] for a in A])
+    m_argok, m_bok, m_syms, m_post, m_per = m
+    ctx.eq("argOK", m_argok, argok)
+    ctx.eq("bcastOK", m_bok, bok)
+    ctx.eq("unify_chunks raises", m_post is None or m_post == "none", real is None)
+    if argok and bok and m_post is False:
+        ctx.disagree("theorem unify_post contradicted by the executable model", m_post, True)
+    if real is None:
+        ctx.branch("up-raises" + ("" if bok else "-incompatible"))
+        if bok and argok:
+            # compatible lengths: only competing chunkings cannot make it raise (totals agree) — never expected
+            ctx.fail("unify_chunks raised on broadcast-compatible arguments", observed=[[a["ind"], a["chunks"]] for a in A])
+        return
+    # function level: common chunks and the new chunks of the arguments, symbol by symbol, vs the model
+    per_real = []
+    for s_ in m_syms:
+        per_real.append([s_, real.get(s_, []), [nw[a["ind"].index(s_)] for a, nw in zip(A, newc) if s_ in a["ind"]]])
+    ctx.eq("symbols of chunkss", sorted(m_syms), sorted(real))
+    ctx.eq("common chunks and new chunks per symbol", m_per, per_real)
+    # the statement on the real result
+    post = True
+    for s_, common, news in per_real:
+        if len(common) == 0 or any(n != common and n != [1] for n in news) or not any(n == common for n in news):
+            post = False
+            if argok and bok:
+                ctx.fail("unify_chunks: an argument is rechunked neither to the common chunks nor to (1,), or no argument "
+                         "carries the common chunks", observed=[s_, common, news])
+    for a, nw in zip(A, newc):
+        if [sum(c) for c in nw] != [sum(c) for c in a["chunks"]]:
+            ctx.fail("unify_chunks changed the shape of an argument", observed=[a["chunks"], nw])
+    ctx.eq("postcondition on the real result vs model", m_post, post)
+    if not (argok and bok):
+        ctx.branch("up-hypothesis-false")
+        return
+    # coverage
+    if any(nw != a["chunks"] for a, nw in zip(A, newc)):
+        ctx.branch("up-rechunked")
+    for a, nw in zip(A, newc):
+        for s_, old, n in zip(a["ind"], a["chunks"], nw):
+            if n == [1] and real[s_] != [1]:
+                ctx.branch("up-broadcast-keeps-(1,)")
+                if len(old) > 1:
+                    ctx.branch("up-broadcast-dim-was-(0,1,0)-like")
+            if sum(old) == 1 and len(real[s_]) > 1 and sum(real[s_]) == 1 and n == real[s_]:
+                ctx.branch("up-length-one-everywhere-many-chunks")
+            if sum(old) == 0:
+                ctx.branch("up-zero-length-dim")
+            if 0 in old and sum(old) > 0:
+                ctx.branch("up-interior-zero-chunk")
+    for s_ in real:
+        cands = {tuple(c) for a in A for t, c in zip(a["ind"], a["chunks"]) if t == s_ and len(c) > 1 and sum(c) != 1}
+        if len(cands) > 1:
+            ctx.branch("up-walk" + ("-with-zeros" if any(0 in c for c in cands) else ""))
+    if len(A) >= 3:
+        ctx.branch("up-three-or-more-args")
+    # API level: elementwise index strings -> the public operation has the common chunks and blocks as declared
+    if inp.get("ew"):
+        try:
+            xs = [np.asarray(d) for d in arrs]
+            ref = xs[0]
+            for x in xs[1:]:
+                ref = ref + x
+        except ValueError:
+            ctx.note("numpy-invalid")
+            return
+        r = arrs[0]
+        for d in arrs[1:]:
+            r = r + d
+        nd = r.ndim
+        exp = [real[nd - 1 - i] for i in range(nd)]
+        if len(A) == 2:
+            ctx.eq("chunks of x + y are the common chunks of unify_chunks", [[int(c) for c in ax] for ax in r.chunks], exp)
+        _check_blocks(ctx, r, ref, "elementwise after unify_chunks", maxblocks=12)
+        ctx.branch("up-api-elementwise")
+
+
+def gen_unifypost(rng):
+    ew = rng.random() < 0.4
+    nsym = rng.randint(1, 3)
+    size = {s: rng.choice([0, 1, 2, 3, 4, 5, 6]) for s in range(nsym)}
+    bad = rng.random() < 0.08
+    args = []
+    for _ in range(rng.choice([1, 2, 2, 2, 3, 3, 4])):
+        if ew:
+            k = rng.randint(0 if args else 1, nsym)
+            ind = list(range(k))[::-1]
+        else:
+            ind = rng.sample(range(nsym), rng.randint(1, nsym))
+        chunks = []
+        for s in ind:
+            n = size[s] if rng.random() < 0.75 else 1
+            if bad and rng.random() < 0.4:
+                n = n + rng.choice([1, 2])
+            c = U.rand_chunks(rng, [n], zeros=0.3)[0]
+            if n == 0 and rng.random() < 0.5:
+                c = [0] * rng.randint(1, 3)
+            chunks.append(c)
+        args.append({"ind": ind, "chunks": chunks})
+    return {"args": args, "ew": ew}
+
+
 CASES = {"modelled": case_modelled, "pipeline": case_pipeline, "fuseslice": case_fuseslice, "fusetuple": case_fusetuple,
-         "slicechain": case_slicechain}
+         "slicechain": case_slicechain, "unifypost": case_unifypost}
 
 
 def generate(ctx):
@@ -827,3 +971,11 @@ def generate(ctx):
     for _ in range(ctx.n(60, 600)):
         p, _x = G0.gen(rng.randint(1, 5))
         yield "pipeline", {"prog": p, "stream": "zero-chunks"}
+    # extension (appended last: earlier rng streams unchanged): the postcondition of unify_chunks
+    yield "unifypost", {"args": [{"ind": [1, 0], "chunks": [[2, 0, 2], [0, 1, 0]]}, {"ind": [1, 0], "chunks": [[1, 3], [3, 2]]},
+                                 {"ind": [0], "chunks": [[5]]}], "ew": True}
+    yield "unifypost", {"args": [{"ind": [0], "chunks": [[0, 0]]}, {"ind": [0], "chunks": [[0, 0, 0]]}, {"ind": [0], "chunks": [[1, 0]]}],
+                        "ew": True}
+    yield "unifypost", {"args": [{"ind": [0], "chunks": [[1, 0]]}, {"ind": [0], "chunks": [[0, 1]]}], "ew": True}
+    for _ in range(ctx.n(220, 3000)):
+        yield "unifypost", gen_unifypost(rng)
